@@ -26,7 +26,8 @@ REQUIRED = ['backends/libwayland_debug_output/parse.py:Parser.parse_all', 'backe
             'backends/libwayland_debug_output/runner.py:_Subprocess.run']   # (main.py itself runs in child processes: decided by what those do)
 HELPERS = os.path.join(os.path.dirname(os.path.dirname(os.path.abspath(__file__))), 'helpers')
 MARKER = 'CHILD-STDOUT-MARKER-7f3a\n'
-WORDS = ['prog', 'arg1', '-f', 'x', '-r', '--run', '-g', '--gdb', '--', '', 'a b', '-Cr', '-l', 'file', '"q"', 'back\\n', "'s'", 'żółć', '-p', '--supress', '-b', '*']
+WORDS = ['prog', 'arg1', '-f', 'x', '-r', '--run', '-g', '--gdb', '--', '', 'a b', '-Cr', '-l', 'file', '"q"', 'back\\n', "'s'", 'żółć', '-p', '--supress', '-b', '*',
+         '~', '~/x', '~root', '~/.config/app.conf', '$HOME', '${HOME}', '%s', '`id`', '$(id)', 'a;b', 'a|b', '>x', '*.log', '?', '[a]', '{a,b}', '\\', 'a\\ b', '#c', '!x', '&']
 
 
 def plan(tier, seed):
